@@ -460,6 +460,7 @@ def q__do_OP_ENDIF(vm):
 
 
 # pycoin/satoshi/miscops.py :: do_OP_CHECKLOCKTIMEVERIFY
+# pycoin/satoshi/miscops.py :: do_OP_CHECKLOCKTIMEVERIFY
 def q__do_OP_CHECKLOCKTIMEVERIFY(vm):
     if not vm.flags & VERIFY_CHECKLOCKTIMEVERIFY:
         if vm.flags & VERIFY_DISCOURAGE_UPGRADABLE_NOPS:
@@ -471,8 +472,9 @@ def q__do_OP_CHECKLOCKTIMEVERIFY(vm):
         raise ScriptError()
     if len(vm.stack[-1]) > 5:
         raise ScriptError()
+    top = vm.stack[-1]
     max_lock_time = vm.pop_int()
-    vm.push_int(max_lock_time)
+    vm.append(top)
     if max_lock_time < 0:
         raise ScriptError()
     era_max = max_lock_time >= 500000000
@@ -496,6 +498,7 @@ def q___check_sequence_verify(sequence, tx_context_sequence):
 
 
 # pycoin/satoshi/miscops.py :: do_OP_CHECKSEQUENCEVERIFY
+# pycoin/satoshi/miscops.py :: do_OP_CHECKSEQUENCEVERIFY
 def q__do_OP_CHECKSEQUENCEVERIFY(vm):
     if not vm.flags & VERIFY_CHECKSEQUENCEVERIFY:
         if vm.flags & VERIFY_DISCOURAGE_UPGRADABLE_NOPS:
@@ -505,8 +508,9 @@ def q__do_OP_CHECKSEQUENCEVERIFY(vm):
         raise ScriptError()
     if len(vm.stack[-1]) > 5:
         raise ScriptError()
+    top = vm.stack[-1]
     sequence = vm.pop_int()
-    vm.push_int(sequence)
+    vm.append(top)
     if sequence < 0:
         raise ScriptError()
     if sequence & SEQUENCE_LOCKTIME_DISABLE_FLAG:
@@ -644,13 +648,10 @@ def q__check_public_key_encoding(blob):
 
 
 # pycoin/satoshi/checksigops.py :: checksig
+# pycoin/satoshi/checksigops.py :: checksig
 def q__checksig(vm, sig_pair, signature_type, pair_blob, blobs_to_delete, sighash_cache, verify_witness_pubkeytype, verify_strict):
     generator = vm.generator_for_signature_type(signature_type)
-    if verify_strict:
-        check_public_key_encoding(pair_blob)
-    if verify_witness_pubkeytype:
-        if pair_blob[0] not in (2, 3) or len(pair_blob) != 33:
-            raise ScriptError()
+    check_public_key_flags(pair_blob, verify_witness_pubkeytype, verify_strict)
     try:
         public_pair = sec_to_public_pair(pair_blob, generator, strict=verify_strict)
     except (ValueError, EncodingError):
@@ -666,6 +667,7 @@ def q__checksig(vm, sig_pair, signature_type, pair_blob, blobs_to_delete, sighas
 
 
 # pycoin/satoshi/checksigops.py :: checksigs
+# pycoin/satoshi/checksigops.py :: checksigs
 def q__checksigs(vm, sig_blobs, public_pair_blobs):
     sig_blobs_remaining = list(sig_blobs)
     flags = vm.flags
@@ -678,9 +680,12 @@ def q__checksigs(vm, sig_blobs, public_pair_blobs):
         try:
             sig_pair, signature_type = parse_and_check_signature_blob(sig_blob, flags, vm)
         except (der.UnexpectedDER, ValueError):
-            public_pair_blobs = []
+            sig_pair = None
         while len(sig_blobs_remaining) < len(public_pair_blobs):
             pair_blob = public_pair_blobs.pop()
+            if sig_pair is None:
+                check_public_key_flags(pair_blob, verify_witness_pubkeytype, verify_strict)
+                continue
             if checksig(vm, sig_pair, signature_type, pair_blob, sig_blobs, sighash_cache, verify_witness_pubkeytype, verify_strict):
                 break
         else:
@@ -1074,6 +1079,7 @@ def q__SegwitChecker___signature_for_hash_type_segwit(self, script, tx_in_idx, h
 
 
 # pycoin/coins/bitcoin/SegwitChecker.py :: SegwitChecker.witness_program_tuple
+# pycoin/coins/bitcoin/SegwitChecker.py :: SegwitChecker.witness_program_tuple
 def q__SegwitChecker__witness_program_tuple(self, tx_context, puzzle_script, solution_stack, flags, is_p2sh):
     if not flags & VERIFY_WITNESS:
         return None
@@ -1083,6 +1089,8 @@ def q__SegwitChecker__witness_program_tuple(self, tx_context, puzzle_script, sol
             raise ScriptError()
     else:
         witness_program = puzzle_script[2:]
+        if not is_p2sh and len(tx_context.solution_script) > 0:
+            raise ScriptError()
         if len(solution_stack) > 0:
             err = errno.WITNESS_MALLEATED_P2SH if is_p2sh else errno.WITNESS_MALLEATED
             raise ScriptError()
@@ -1313,3 +1321,12 @@ def q__make_instruction_lookup(opcode_pairs):
     return instruction_lookup
 
 
+
+
+# pycoin/satoshi/checksigops.py :: check_public_key_flags
+def q__check_public_key_flags(pair_blob, verify_witness_pubkeytype, verify_strict):
+    if verify_strict:
+        check_public_key_encoding(pair_blob)
+    if verify_witness_pubkeytype:
+        if pair_blob[:1] not in (b'\x02', b'\x03') or len(pair_blob) != 33:
+            raise ScriptError()
